@@ -422,3 +422,7 @@ fn next_down(rule: Pair<Rule>) -> Parsed<Pair<Rule>> {
         .next()
         .ok_or(JsonPathError::InvalidJsonPath(rule_as_str))
 }
+
+#[cfg(kani)]
+#[path = "/verif/kani/parser.rs"]
+mod verif_kani;
